@@ -29,10 +29,11 @@ def classify(w):
 
 class Script:
     def __init__(self):
-        self.modes = {}        # attempt number -> 'S' | 'N' | 'L'
+        self.modes = {}        # attempt number -> 'S' | 'N' | 'L' | 'H'
         self.n = 0
         self.connect_frames = []
         self.lost_in = set()
+        self.handler_loss = set()   # attempts lost inside a connect handler
 
     def on_packet(self, h, pkt):
         if pkt['type'] != R.CONNECT:
@@ -40,7 +41,13 @@ class Script:
         att = len(h.attempts)
         self.connect_frames.append((att, pkt['nsp'], pkt['data']))
         mode = self.modes.get(att, 'S')
-        if mode == 'S':
+        if mode in ('S', 'H'):
+            # 'H': every namespace is accepted, and the transport is lost
+            # while the application's connect handler of the last one runs,
+            # i.e. after the acknowledgements were processed and before
+            # connect() has returned
+            if mode == 'H':
+                self.handler_loss.add(att)
             self.n += 1
             h.deliver(R.CONNECT, pkt['nsp'], None, {'sid': 's%d' % self.n})
         elif mode == 'N':
@@ -74,9 +81,28 @@ class Scenario:
         self.events = []
         self.backoff = []
         h = self.h
+        script = self.script
+
+        def mk_connect(ns):
+            def due():
+                att = len(h.attempts)
+                if ns == nss[-1] and att in script.handler_loss:
+                    script.handler_loss.discard(att)
+                    return True
+                return False
+            if h.is_async:
+                async def on_connect():
+                    self.events.append(('connect', ns, len(h.attempts)))
+                    if due():
+                        await h.a_lose()
+            else:
+                def on_connect():
+                    self.events.append(('connect', ns, len(h.attempts)))
+                    if due():
+                        h.lose(pump=False)
+            return on_connect
         for ns in nss:
-            h.on('connect', (lambda ns: lambda: self.events.append(
-                ('connect', ns, len(h.attempts))))(ns), ns)
+            h.c.on('connect', mk_connect(ns), namespace=ns)
             h.on('disconnect', (lambda ns: lambda r: self.events.append(
                 ('disconnect', ns, r, len(h.attempts))))(ns), ns)
         h.pending_loss = False
@@ -397,7 +423,8 @@ class Scenario:
 def patterns(maxlen_tnl, maxlen_tn):
     out = ['']
     for n in range(1, maxlen_tnl + 1):
-        out += [''.join(p) for p in itertools.product('TNL', repeat=n)]
+        out += [''.join(p) for p in itertools.product(
+            'TNLH' if n <= 2 else 'TNL', repeat=n)]
     for n in range(maxlen_tnl + 1, maxlen_tn + 1):
         out += [''.join(p) for p in itertools.product('TN', repeat=n)]
     return out
@@ -442,7 +469,7 @@ def run(ctx):
             for params in grid[::5]:
                 jobs.append((kind, params, 'TT', cause, None, None))
     # follow-ups
-    for p in ['', 'T', 'NT', 'L']:
+    for p in ['', 'T', 'NT', 'L', 'H', 'HT']:
         for kind in ('sync', 'async'):
             for params in [(1, 5, 0.5, 0), (0.5, 1, 0, 6)]:
                 jobs.append((kind, params, p, 'loss', None, 'loss_again'))
